@@ -40,6 +40,29 @@ func TestVF_C19(t *testing.T) {
 	if noZm {
 		os.Setenv("PATH", strings.Replace(os.Getenv("PATH"), os.Getenv("VF_FAKEBIN")+":", os.Getenv("VF_FAKEBIN")+"-nozm:", 1))
 	}
+	if os.Getenv("VF_CHOOSERSLOW") != "" {
+		// family chooser: the file chooser stays open for 1.5 s; what the remote side or the user does meanwhile must be
+		// honoured when it closes (one case at a time: the fake chooser is configured through the environment)
+		dir := filepath.Join(os.Getenv("VF_OUT"), "chooser-pick")
+		os.MkdirAll(dir, 0755)
+		pick := filepath.Join(dir, "picked.bin")
+		os.WriteFile(pick, []byte("payload"), 0644)
+		os.Setenv("VF_ZENITY", "slowpath:1500:"+pick)
+		var cases []vfCase
+		for _, sv := range []string{"cancel-after", "cancel-before", "quiet", "finish-late", "cancel-after", "quiet"} {
+			for _, cc := range []int{0, 700} {
+				plan := vfZmPlan{Upload: true, Helper: "chooser-slow", Server: sv, CtrlC: cc}
+				id := fmt.Sprintf("zm-up-chooser-slow-%s-c%d-%d", sv, cc, len(cases))
+				cases = append(cases, vfCase{ID: id, Run: func(c *vfCtx) {
+					os.Remove(filepath.Join(dir, ".vf_zm_log"))
+					os.Remove(filepath.Join(dir, ".vf_zm_stdin"))
+					vfZmodemCase(c, plan)
+				}})
+			}
+		}
+		vfRunCases(t, "C19", cases, 1, 240*time.Second)
+		return
+	}
 	var cases []vfCase
 	helpers := []string{"exit0", "exit3", "exit-now", "finish", "never", "late-write", "chooser-cancel"}
 	servers := []string{"finish", "cancel-before", "cancel-before-short", "cancel-before-split", "cancel-after", "keeps-sending", "quiet"}
@@ -87,7 +110,10 @@ func vfZmodemCase(c *vfCtx, plan vfZmPlan) {
 		os.MkdirAll(up, 0755)
 		os.WriteFile(filepath.Join(up, "file.bin"), []byte("payload"), 0644)
 		helperDir = up
-		if plan.Helper != "chooser-cancel" {
+		if plan.Helper == "chooser-slow" {
+			helperDir = filepath.Join(os.Getenv("VF_OUT"), "chooser-pick")
+			script = vfZmHelperScripts["exit0"]
+		} else if plan.Helper != "chooser-cancel" {
 			if _, err := f.OneTimeUpload([]string{filepath.Join(up, "file.bin")}); err != nil {
 				c.Inconc("OneTimeUpload: %v", err)
 				return
@@ -96,7 +122,9 @@ func vfZmodemCase(c *vfCtx, plan vfZmPlan) {
 	} else {
 		f.SetDefaultDownloadPath(helperDir)
 	}
-	os.Unsetenv("VF_ZENITY") // chooser-cancel: the fake chooser answers "cancelled"
+	if plan.Helper != "chooser-slow" {
+		os.Unsetenv("VF_ZENITY") // chooser-cancel: the fake chooser answers "cancelled"
+	}
 	os.WriteFile(filepath.Join(helperDir, ".vf_zm_script"), []byte(script), 0644)
 	c.Replay(plan)
 	init := vfZmDownloadInit
@@ -172,6 +200,9 @@ func vfZmodemCase(c *vfCtx, plan vfZmPlan) {
 		add(45, func() { sw(cancelSeq[10:]) })
 	case "cancel-after":
 		add(450, func() { sw(cancelSeq) })
+	case "finish-late": // (chooser family) the remote side finishes only after the dialog has closed
+		add(2200, func() { sw("\x18data-from-server-1") })
+		add(2400, func() { sw(vfZmFinish) })
 	case "keeps-sending":
 		for ms := 200; ms <= 1500; ms += 100 {
 			add(ms, func() { sw("\x18more-data") })
@@ -226,6 +257,21 @@ func vfZmodemCase(c *vfCtx, plan vfZmPlan) {
 	if _, err := os.Stat(filepath.Join(helperDir, ".vf_zm_log")); err == nil {
 		helperStarted = true
 	}
+	if plan.Helper == "chooser-slow" {
+		// the dialog closes 1.5 s after the start header; give a helper that is wrongly launched then the time to show
+		time.Sleep(time.Until(t0.Add(2300 * time.Millisecond)))
+		if _, err := os.Stat(filepath.Join(helperDir, ".vf_zm_log")); err == nil {
+			helperStarted = true
+		}
+		stoppedInDialog := plan.Server == "cancel-after" || plan.Server == "cancel-before" || plan.CtrlC > 0
+		if stoppedInDialog && helperStarted {
+			c.Viol("c19-helper-started-after-stop-in-dialog", "plan %+v: the session was cancelled (remote cancel at 0.04/0.45 s or Ctrl-C at 0.7 s) while the file chooser was open, yet the local helper was started when the chooser closed; the remote side received %q", plan, vfHead(rig.siSink.Bytes()[i0:], 120))
+			return
+		}
+		if !stoppedInDialog && plan.Server == "finish-late" && !helperStarted {
+			c.Obs("chooser_slow_helper_not_started", 1)
+		}
+	}
 	if strings.HasPrefix(plan.Server, "cancel-before") && helperStarted && plan.Helper != "missing" {
 		c.Viol("c19-helper-started-after-remote-cancel", "plan %+v: the remote side cancelled 40 ms after the start header (before the helper is launched), yet the local helper was started", plan)
 		return
@@ -233,7 +279,8 @@ func vfZmodemCase(c *vfCtx, plan vfZmPlan) {
 	sessionWasReal := !(strings.HasPrefix(plan.Server, "cancel-before") && !helperStarted)
 	// (1) the side still waiting got the cancel sequence
 	toServer := rig.siSink.Bytes()[i0:]
-	if sessionWasReal && !strings.HasPrefix(plan.Server, "cancel-before") && !bytes.Contains(toServer, zmodemCancelFullSequence) {
+	remoteCancelledFirst := strings.HasPrefix(plan.Server, "cancel-before") || plan.Helper == "chooser-slow" && plan.Server == "cancel-after" && (plan.CtrlC == 0 || plan.CtrlC > 450)
+	if sessionWasReal && !remoteCancelledFirst && !bytes.Contains(toServer, zmodemCancelFullSequence) {
 		c.Viol("c19-no-cancel-to-server", "plan %+v: the session ended (helper started=%v) but the remote side was not sent the cancel sequence; it received %q", plan, helperStarted, vfHead(toServer, 80))
 		return
 	}
